@@ -154,4 +154,5 @@ pub fn run(run: &Run) {
     explore_all(run, &v2_universes(run.tier));
     explore_all(run, &seq_universes(run.tier, true, true));
     run.explore(&super::c11::EmbeddedStructured::new(false));
+    run.explore(&super::c11::NearMaxStructured { span: run.tier.pick(8, 35) });
 }
